@@ -27,12 +27,22 @@ structure Quirks where
   /-- the `x == 0 -> !x`, `if (x != 0) -> if (x)` and `0 + X -> X` rewrites trust the grammar's optimistic static
       type (`mixed + int` is typed `int`, `mixed + real` `real`) although the value may be of another type -/
   optimisticTypes : Bool := true
+  /-- `size - i` for a `<i` range bound is computed in int64 and wraps for i near INT64_MIN (the bound lands
+      inside the value instead of far outside) -/
+  revRangeWrap : Bool := true
+  /-- `#if` expressions are evaluated in 32-bit `int` (lib/lpc/preprocess.c cond_get_exp) although LPC integers
+      have 64 bits -/
+  ppIf32 : Bool := true
+  /-- grammar.y turns `x[i..<k]` with a constant k <= 1 into `x[i..]`, also when it is an lvalue, where it then
+      means `x[i..<1]`: `x[i..<0] = v` is accepted with the constant and an error with a variable 0 -/
+  lvRangeConstRev : Bool := true
   deriving Repr, DecidableEq
 
 def Quirks.real : Quirks := {}
 def Quirks.none : Quirks :=
   { numOpEqReal := false, addEqNumStr := false, strRangeRevNeg := false, bufStoreZero := false, foldAddZeroReal := false,
-    optimisticTypes := false }
+    optimisticTypes := false, revRangeWrap := false, ppIf32 := false,
+    lvRangeConstRev := false }
 
 variable {R : Type}
 
@@ -291,28 +301,29 @@ def sliceArray {α} (l : List α) (frm to : Int) : List α :=
 
 /-- f_range (code: 0x10 = `<` on the first bound, 0x01 on the second) -/
 def range (q : Quirks) (old : Bool) (fr tr : Bool) (c i j : Value R) : Res (Value R) :=
+  let sb := fun (a b : Int) => if q.revRangeWrap then wrap (a - b) else a - b
   match i, j with
   | .int i, .int j =>
     match c with
     | .str s =>
       let len : Int := s.length
-      let to := if tr then (if q.strRangeRevNeg then len - j else (if old && decide (len - j < 0) then len - j + len else len - j))
+      let to := if tr then (if q.strRangeRevNeg then sb len j else (if old && decide (sb len j < 0) then sb len j + len else sb len j))
                 else if old && decide (j < 0) then j + len else j
-      let frm := if fr then (if q.strRangeRevNeg then len - i else (if old && decide (len - i < 0) then len - i + len else len - i))
+      let frm := if fr then (if q.strRangeRevNeg then sb len i else (if old && decide (sb len i < 0) then sb len i + len else sb len i))
                  else if old && decide (i < 0) then i + len else i
       let frm := if frm < 0 then 0 else frm
       .ok (.str (cut s frm to))
     | .buf b =>
       let len : Int := b.length
-      let to := if tr then len - j else j
+      let to := if tr then sb len j else j
       let to := if old && decide (to < 0) then to + len else to
-      let frm := if fr then len - i else i
+      let frm := if fr then sb len i else i
       let frm := if old then (if frm < 0 then (if frm + len < 0 then 0 else frm + len) else frm) else (if frm < 0 then 0 else frm)
       .ok (.buf (cut b frm to))
     | .arr l =>
       let size : Int := l.length
-      let to := if tr then size - j else j
-      let frm := if fr then size - i else i
+      let to := if tr then sb size j else j
+      let frm := if fr then sb size i else i
       -- clamps added by the fix, still 64 bits wide
       let frm := if frm < 0 then 0 else frm
       let to := if to ≥ size then size - 1 else to
@@ -323,24 +334,25 @@ def range (q : Quirks) (old : Bool) (fr tr : Bool) (c i j : Value R) : Res (Valu
   | _, _ => .err
 
 /-- f_extract_range -/
-def extract (old : Bool) (fr : Bool) (c i : Value R) : Res (Value R) :=
+def extract (q : Quirks) (old : Bool) (fr : Bool) (c i : Value R) : Res (Value R) :=
+  let sb := fun (a b : Int) => if q.revRangeWrap then wrap (a - b) else a - b
   match i with
   | .int i =>
     match c with
     | .str s =>
       let len : Int := s.length
-      let frm := if fr then len - i else i
+      let frm := if fr then sb len i else i
       let frm := if old then (if frm < 0 then (if frm + len < 0 then 0 else frm + len) else frm) else (if frm < 0 then 0 else frm)
       if frm ≥ len then .ok (.str []) else .ok (.str (s.drop frm.toNat))
     | .buf b =>
       let len : Int := b.length
-      let frm := if fr then len - i else i
+      let frm := if fr then sb len i else i
       let frm := if old then (if frm < 0 then (if frm + len < 0 then 0 else frm + len) else frm) else (if frm < 0 then 0 else frm)
       let frm := if frm > len then len else frm
       .ok (.buf (b.drop frm.toNat))
     | .arr l =>
       let size : Int := l.length
-      let frm := if fr then size - i else i
+      let frm := if fr then sb size i else i
       let frm := if frm < 0 then 0 else frm
       let frm := if frm > size then size else frm
       .ok (.arr (sliceArray l (wrap32 frm) (wrap32 (size - 1))))
